@@ -51,6 +51,7 @@ def check(rep: Report, ctx: Ctx) -> None:
     r57(rep, ctx)
     r58(rep, ctx)
     r59(rep, ctx)
+    r510(rep, ctx)
 
 
 # --------------------------------------------------------------------------
@@ -736,3 +737,126 @@ def r59(rep: Report, ctx: Ctx) -> None:
            node=ends[0] if ends else closer.node,
            detail="add_puml_edge(previous_puml_node, logic_list[-1].end_node)"
                   " dominates set_path_node(pop=True)")
+
+
+# --------------------------------------------------------------------------
+def _self_attr(e: ast.AST) -> Optional[str]:
+    if isinstance(e, ast.Attribute) and isinstance(e.value, ast.Name) \
+            and e.value.id == "self":
+        return e.attr
+    return None
+
+
+def _slice_of(e: ast.AST) -> Optional[tuple[str, Optional[int], Optional[int]]]:
+    """``X[a:b]`` -> (text of X, a, b) for constant / missing bounds."""
+    if isinstance(e, ast.Subscript) and isinstance(e.slice, ast.Slice) \
+            and e.slice.step is None:
+        def val(b: Optional[ast.AST]) -> Any:
+            if b is None:
+                return None
+            try:
+                return const_value(b)
+            except ValueError:
+                return "?"
+        lo, up = val(e.slice.lower), val(e.slice.upper)
+        if "?" not in (lo, up):
+            return unparse(e.value), lo, up
+    return None
+
+
+def _rotation_kind(e: ast.AST, subject: str) -> Optional[str]:
+    """Classify ``e`` as a rotation of the list named ``subject``:
+    'last-to-front' for ``[x] + S[:-1]`` / ``S[-1:] + S[:-1]``,
+    'first-to-back' for ``S[1:] + [x]`` / ``S[1:] + S[:1]``."""
+    if not (isinstance(e, ast.BinOp) and isinstance(e.op, ast.Add)):
+        return None
+    l, r = e.left, e.right
+    ls, rs = _slice_of(l), _slice_of(r)
+    one_l = isinstance(l, ast.List) and len(l.elts) == 1
+    one_r = isinstance(r, ast.List) and len(r.elts) == 1
+    if rs == (subject, None, -1) and (one_l or ls == (subject, -1, None)):
+        return "last-to-front"
+    if ls == (subject, 1, None) and (one_r or rs == (subject, None, 1)):
+        return "first-to-back"
+    return None
+
+
+def r510(rep: Report, ctx: Ctx) -> None:
+    rep.rule("R5.10", "the per-path lists of a logic block are rotated in "
+             "lock-step (an index means the same path in every list)", 6)
+    holder = ctx.index.cls("LogicBlockHolder")
+    init = holder.lookup("__init__")[0]
+    rot = ctx.func("LogicBlockHolder.rotate_path")
+    rep.seen(init, rot)
+    # -- discovery of the per-path lists (independent of rotate_path)
+    per_path: dict[str, str] = {"paths": "the paths themselves"}
+    for st in ast.walk(init.node):
+        if isinstance(st, (ast.Assign, ast.AnnAssign)):
+            tgt = st.targets[0] if isinstance(st, ast.Assign) else st.target
+            a = _self_attr(tgt)
+            v = st.value
+            if a and v is not None and any(
+                    isinstance(c, ast.Call) and dotted(c.func) == "len"
+                    and c.args and _self_attr(c.args[0]) == "paths"
+                    for c in ast.walk(v)):
+                per_path[a] = "initialised with len(self.paths) entries"
+    for m in holder.node.body:
+        if not isinstance(m, (ast.FunctionDef, ast.AsyncFunctionDef)):
+            continue
+        for c in ast.walk(m):
+            if isinstance(c, ast.Call) and dotted(c.func) == "zip":
+                names = [_self_attr(x) for x in c.args]
+                if "paths" in names:
+                    for n in names:
+                        if n and n != "paths":
+                            per_path.setdefault(
+                                n, f"zipped with self.paths in {m.name}")
+    # -- rotations performed by rotate_path
+    reach = ctx.reach(rot)
+    kinds: dict[str, str] = {}
+    for st in ast.walk(rot.node):
+        if isinstance(st, ast.Assign) and len(st.targets) == 1:
+            a = _self_attr(st.targets[0])
+            if not a:
+                continue
+            v = reach.resolve(st.value, at=st)
+            k = _rotation_kind(v, f"self.{a}")
+            if k is None and isinstance(v, ast.Call) and len(v.args) == 1 \
+                    and _self_attr(v.args[0]) == a:
+                # helper(values) returning a rotation of its parameter
+                got = ctx.index.resolve_name(rot.module, call_name(v) or "")
+                if isinstance(got, FuncInfo) and got.params():
+                    rets = [n for n in ast.walk(got.node)
+                            if isinstance(n, ast.Return) and n.value is not None]
+                    ks = {_rotation_kind(ctx.reach(got).resolve(
+                        n.value, at=n), got.params()[0]) for n in rets}
+                    if len(ks) == 1:
+                        k = ks.pop()
+            if k:
+                kinds[a] = k
+        elif isinstance(st, ast.Expr) and isinstance(st.value, ast.Call) \
+                and call_name(st.value) == "insert" and isinstance(
+                    st.value.func, ast.Attribute):
+            a = _self_attr(st.value.func.value)
+            c = st.value
+            if a and len(c.args) == 2 and unparse(c.args[0]) == "0" \
+                    and isinstance(c.args[1], ast.Call) and call_name(
+                        c.args[1]) == "pop" and not c.args[1].args \
+                    and _self_attr(c.args[1].func.value) == a:  # type: ignore[attr-defined]
+                kinds[a] = "last-to-front"
+    if not kinds:
+        raise AnalysisError(f"{rot.qualname}: no list rotation recognised "
+                            "(idiom outside the vocabulary)")
+    majority = max(set(kinds.values()), key=list(kinds.values()).count)
+    for a, why in sorted(per_path.items()):
+        k = kinds.get(a)
+        rep.ob("R5.10", f"self.{a} rotates with the paths", k == majority,
+               fi=rot, node=rot.node,
+               detail=f"self.{a} ({why}): "
+                      + (f"rotated {k}" if k else "NOT rotated by "
+                         "rotate_path") + f"; the other lists rotate "
+                      f"{majority}"
+                      + ("" if k == majority else
+                         " -- after a rotation index i of this list "
+                         "belongs to another path than index i of the "
+                         "others (wrong alternatives are merged / popped)"))
